@@ -28,7 +28,11 @@ Init == \E h \in Group :
           /\ g = h /\ reg = Leaves /\ twin = [i \in 1..Len(Leaves) |-> Act(h, Leaves[i])] /\ hist = <<>>
 
 Room == Len(hist) < MaxDepth
-Push(r, t, rec) == reg' = Append(reg, r) /\ twin' = Append(twin, t) /\ hist' = Append(hist, rec) /\ UNCHANGED g
+(* exactness domain (DESIGN 1.1 / 5.1): a step is taken only while every entry stays below 2^20, so that float32 arithmetic of the
+   implementation is exact on the integers involved (and the square root of a squared norm can be recovered exactly) *)
+Cap == 1048576
+Small(A) == \A n \in 1..Len(A.val) : A.val[n] < Cap /\ A.val[n] > -Cap
+Push(r, t, rec) == Small(r) /\ reg' = Append(reg, r) /\ twin' = Append(twin, t) /\ hist' = Append(hist, rec) /\ UNCHANGED g
 
 DoAdd(i, j) == /\ Room /\ i <= j /\ SameType(reg[i], reg[j])
                /\ Push(Add(reg[i], reg[j]), Add(twin[i], twin[j]), [op |-> "Add", i |-> i, j |-> j])
